@@ -90,6 +90,7 @@ OPS = {
     "ensemble": lambda p: R.BatchieEnsemblePlateSmoother(min_size=p[0], n_iterations=p[1], min_n_cell_line_plates=p[2]),
 }
 SINGLE_SAMPLE_OPS = {"mergemin", "mergetb", "npl", "ensemble"}
+_OBJ = {}
 
 
 def call(op, rs, params, seed):
@@ -99,7 +100,11 @@ def call(op, rs, params, seed):
          "fn": 0, "fd": 1, "test": []}
     if op in OPS:
         scr = rs.screen()
-        obj = OPS[op](params)
+        # one generator / smoother object per configuration, used again for every later screen and seed (a loop over replicates in one
+        # process does that): the objects are configuration, what a call returns depends on the screen and the generator it is given
+        obj = _OBJ.get((op, tuple(params)))
+        if obj is None:
+            obj = _OBJ[(op, tuple(params))] = OPS[op](params)
         st, r = outcome(obj.generate_plates if op in ("seg", "pair", "perm") else obj.smooth_plates, scr, rng)
     elif op == "cover":
         scr = rs.screen(all_observed=True)
